@@ -101,6 +101,7 @@ static void stage_scripts(Run &R) {
             if (d.size() < 150 || d.size() > 1200) continue;
             if (!go(d)) return;
         }
+    for (const Bytes &d : gen::mapped_names()) if (!go(d)) return;
     for (const Bytes &d : gen::idn_mapped_shapes("iana", "org")) if (!go(d)) return;
     for (const Bytes &d : gen::idn_mapped_shapes("\xD0\xBF\xD0\xBE\xD1\x87\xD1\x82\xD0\xB0", "\xD1\x80\xD1\x84")) if (!go(d)) return;
     for (const Bytes &d : gen::idn_mapped_shapes("mail", "localhost")) if (!go(d)) return;
